@@ -1,12 +1,715 @@
-/-! Model for property C14 (core-only: no Mathlib import, so the driver links). -/
+import OnetVerif.Model.Util
+/-! Model for property C14: every client request gets the reply computed for exactly that request.
+
+What is modelled (anchors are to /repo at the time of writing):
+* the handler call behind the panic barrier — `callInterfaceFunc`, processor.go:414-448;
+* `ServiceProcessor.ProcessClientRequest`, processor.go:578-609: fresh message object, protobuf
+  decode, call, protobuf encode;
+* the read loop of one websocket connection, `wsHandler.ServeHTTP`, websocket.go:259-311 and
+  374-382: one reply per message, the first error ends the loop with a close frame carrying the
+  reason (or no frame at all when the reason does not fit a control frame);
+* the REST adapter built by `RegisterRESTHandler`, processor.go:192-315: the argument object, the
+  path / JSON decoding into it (JSON decoding = right-biased merge into the existing object), the
+  call, the status codes.  The argument object is allocated per request (processor.go:232-234);
+  the allocation policy is a parameter (`Alloc`) so that the behaviour of a handler-wide shared
+  object (the code before the fix) can be stated and refuted;
+* any number of websocket connections and HTTP connections served concurrently (`Sys`): one
+  goroutine per connection, atomic steps = the points where shared data is touched;
+* the client side, `Client.Send`, websocket_client.go:176-217: per-destination lock, one request
+  in flight per connection (`Cl`).
+
+Parameters (external libraries and user code, see the hypotheses of the theorems): the protobuf
+and JSON codecs, the handlers.  Core-only. -/
 namespace C14
 
+abbrev Bytes := List Nat
+
+/-! ## The handler call (processor.go:414-448) -/
+
+/-- what a registered handler does when called: it returns a reply, returns an error, or panics;
+`fits` says whether the error text fits into a websocket close frame (≤ 123 bytes with the
+"unexpected error: " prefix) -/
+inductive HandlerResult (R : Type) where
+  | ret (r : R)
+  | fail (fits : Bool)
+  | panics (fits : Bool)
+  deriving Repr, DecidableEq
+
+/-- the error classes of a client request -/
+inductive Why where
+  | unregistered   -- "The requested message hasn't been registered"
+  | decode         -- "decoding: …"
+  | handler        -- "processing error: …"
+  | panic          -- "panic: …" (the recovered panic of the handler)
+  | encode         -- "encoding: …"
+  deriving Repr, DecidableEq
+
+/-- `callInterfaceFunc(handler, input, false)`: the deferred `recover` turns a panic of the handler
+into an error value; there is no other way out of the call. -/
+def callBarrier {R : Type} : HandlerResult R → Except (Why × Bool) R
+  | .ret r => .ok r
+  | .fail fits => .error (.handler, fits)
+  | .panics fits => .error (.panic, fits)
+
+/-! ## Websocket: `ProcessClientRequest` and the read loop -/
+
+/-- what comes back on the websocket for one message: a reply, or the connection is closed with
+code 1002 and the reason `w`; `visible = false` when the reason is too long for a control frame
+(`WriteControl` refuses it, websocket.go:379-381): the client then only sees the connection drop -/
+inductive WsOut where
+  | reply (b : Bytes)
+  | close (w : Why) (visible : Bool)
+  deriving Repr, DecidableEq
+
+def WsOut.isReply : WsOut → Bool
+  | .reply _ => true
+  | .close _ _ => false
+
+/-- decode error: whether its text fits a close frame -/
+structure DecErr where
+  fits : Bool
+  deriving Repr, DecidableEq
+
+/-- The websocket side of a service built on `ServiceProcessor`: `σ` is the service's own state,
+`M` the decoded message, `R` the reply value. -/
+structure WsSvc (σ M R : Type) where
+  /-- `p.handlers[path]` exists -/
+  registered : String → Bool
+  /-- `protobuf.DecodeWithConstructors(buf, reflect.New(mh.msgType))` -/
+  decode : String → Bytes → Except DecErr M
+  /-- the registered handler (user code, runs atomically on the service state) -/
+  call : σ → String → M → σ × HandlerResult R
+  /-- `protobuf.Encode(reply)` -/
+  encode : R → Option Bytes
+
+/-- text length of "unexpected error: The requested message hasn't been registered: " -/
+def unregisteredPrefix : Nat := 64
+
+/-- `IsStreaming` (websocket.go:279, processor.go:566-575) followed by `ProcessClientRequest`
+(processor.go:578-609) for one message of a connection opened on `path`. -/
+def processClientRequest {σ M R : Type} (svc : WsSvc σ M R) (s : σ) (path : String) (buf : Bytes) :
+    σ × WsOut :=
+  if !svc.registered path then (s, .close .unregistered (unregisteredPrefix + path.length ≤ 123))
+  else
+    -- `msg := reflect.New(mh.msgType).Interface()`: a fresh object for every message
+    match svc.decode path buf with
+    | .error e => (s, .close .decode e.fits)
+    | .ok m =>
+      let r := svc.call s path m
+      match callBarrier r.2 with
+      | .error (w, fits) => (r.1, .close w fits)
+      | .ok rep =>
+        match svc.encode rep with
+        | none => (r.1, .close .encode true)
+        | some b => (r.1, .reply b)
+
+/-- The read loop of one connection (websocket.go:260-311): every message is answered by exactly
+one frame; after the first error nothing more is read. -/
+def wsConn {σ M R : Type} (svc : WsSvc σ M R) (path : String) : σ → List Bytes → σ × List WsOut
+  | s, [] => (s, [])
+  | s, b :: bs =>
+    let r := processClientRequest svc s path b
+    if r.2.isReply then
+      let r' := wsConn svc path r.1 bs
+      (r'.1, r.2 :: r'.2)
+    else (r.1, [r.2])
+
+/-! ## REST adapter (processor.go:192-315) -/
+
+inductive Method where
+  | GET | POST | PUT | other
+  deriving Repr, DecidableEq
+
+/-- `kindGET` of a handler registered for GET (processor.go:140-169) -/
+inductive GetKind where
+  | empty | int | slice
+  deriving Repr, DecidableEq
+
+/-- errors of the adapter with their status code -/
+inductive RestErr where
+  | method    -- 405 "unsupported method"
+  | ctype     -- 400 "content type needs to be application/json"
+  | decode    -- 400 "decoding error …"
+  | handler   -- 400 "processing error …"
+  | panic     -- 400 "processing error panic: …"
+  | path      -- 404 "invalid path"
+  | nan       -- 400 "not a number"
+  | hex       -- 400 hex.DecodeString error
+  deriving Repr, DecidableEq
+
+def RestErr.status : RestErr → Nat
+  | .method => 405
+  | .path => 404
+  | _ => 400
+
+inductive RestOut (R : Type) where
+  | ok (r : R)            -- 200, `json.Marshal(out)`
+  | err (e : RestErr)
+  deriving Repr, DecidableEq
+
+/-- One handler registered with `RegisterRESTHandler`: `O` is the argument object, `B` a request
+body as `encoding/json` sees it. -/
+structure RestH (σ O B R : Type) where
+  method : Method
+  kind : GetKind
+  /-- `reflect.New(sh.msgType)` -/
+  zero : O
+  /-- `json.Unmarshal(msgBuf, obj)`: stores into the *existing* object (fields the body does not
+  mention keep their value); `false` = an error is returned (the object may have changed) -/
+  unmarshal : O → B → O × Bool
+  /-- `val0.Elem().Field(0).SetInt` / `.SetBytes` -/
+  setInt : O → Nat → O
+  setBytes : O → Bytes → O
+  call : σ → O → σ × HandlerResult R
+
+/-- a request as it reaches the handler closure (routing by `http.ServeMux` already done) -/
+structure RestReq (B : Type) where
+  method : Method
+  /-- `Content-Type == "application/json"` -/
+  jsonCT : Bool
+  /-- the last path element (what follows the registered pattern) -/
+  tail : String
+  body : B
+
+def isLowerHex (c : Char) : Bool := c.isDigit || ('a' ≤ c && c ≤ 'f')
+
+/-- `^…/\d+$` -/
+def matchesInt (t : String) : Bool := !t.isEmpty && t.toList.all Char.isDigit
+/-- `^…/[0-9a-f]+$` -/
+def matchesHex (t : String) : Bool := !t.isEmpty && t.toList.all isLowerHex
+
+/-- `strconv.Atoi` on a string of digits: fails above the largest `int` -/
+def atoi (t : String) : Option Nat :=
+  match t.toNat? with
+  | some n => if n < 2 ^ 63 then some n else none
+  | none => none
+
+/-- `hex.DecodeString` on lower-case hex digits: fails on odd length -/
+def hexDecode (t : String) : Option Bytes :=
+  if t.length % 2 = 1 then none else Util.unhex t
+
+/-- The part of the handler closure between the method test and the call (processor.go:235-287):
+path / body decoding into the argument object `obj`. Returns the object as it is afterwards and
+the error, if any. -/
+def restDecode {σ O B R : Type} (h : RestH σ O B R) (obj : O) (req : RestReq B) : O × Option RestErr :=
+  match h.method with
+  | .GET =>
+    match h.kind with
+    | .empty => (obj, none)
+    | .int =>
+      if !matchesInt req.tail then (obj, some .path)
+      else match atoi req.tail with
+        | none => (obj, some .nan)
+        | some n => (h.setInt obj n, none)
+    | .slice =>
+      if !matchesHex req.tail then (obj, some .path)
+      else match hexDecode req.tail with
+        | none => (obj, some .hex)
+        | some b => (h.setBytes obj b, none)
+  | _ =>
+    if !req.jsonCT then (obj, some .ctype)
+    else
+      let r := h.unmarshal obj req.body
+      (r.1, if r.2 then none else some .decode)
+
+/-- `callInterfaceFunc(f, val0.Interface(), false)` and the reply (processor.go:289-305) -/
+def restCall {σ O B R : Type} (h : RestH σ O B R) (s : σ) (obj : O) : σ × RestOut R :=
+  let r := h.call s obj
+  match callBarrier r.2 with
+  | .error (.panic, _) => (r.1, .err .panic)
+  | .error _ => (r.1, .err .handler)
+  | .ok rep => (r.1, .ok rep)
+
+/-- where the argument object of a request comes from -/
+inductive Alloc where
+  | perRequest   -- `val0 := reflect.New(sh.msgType)` inside the closure (the code as it is)
+  | shared       -- one object made at registration time and used by every request (before the fix)
+  deriving Repr, DecidableEq
+
+/-- One request handled from beginning to end, with nothing else running. `slot` is the
+registration-time object (only used under `Alloc.shared`); returns the slot afterwards, the
+service state and the reply. -/
+def restHandle {σ O B R : Type} (h : RestH σ O B R) (al : Alloc) (slot : O) (s : σ) (req : RestReq B) :
+    O × σ × RestOut R :=
+  if req.method ≠ h.method then (slot, s, .err .method)
+  else
+    let start := match al with | .perRequest => h.zero | .shared => slot
+    let d := restDecode h start req
+    let slot' := match al with | .perRequest => slot | .shared => d.1
+    match d.2 with
+    | some e => (slot', s, .err e)
+    | none =>
+      let c := restCall h s d.1
+      (slot', c.1, c.2)
+
+/-- a sequence of requests to one handler, one after the other -/
+def restSeq {σ O B R : Type} (h : RestH σ O B R) (al : Alloc) : O → σ → List (RestReq B) → List (RestOut R)
+  | _, _, [] => []
+  | slot, s, q :: qs =>
+    let r := restHandle h al slot s q
+    r.2.2 :: restSeq h al r.1 r.2.1 qs
+
+/-! ## The server under concurrent clients
+
+One goroutine per websocket connection and per HTTP connection; each handles the requests of its
+connection one after the other.  Shared between goroutines: the service state (only touched by the
+handlers) and, under `Alloc.shared`, the argument objects of the REST handlers.  A step is one
+stretch of code that touches shared data at most once:
+websocket — one whole `ProcessClientRequest` (everything but the handler call is goroutine-local);
+REST — (1) method test + decoding into the argument object, (2) the call + reply. -/
+
+/-- the server's registered handlers -/
+structure Cfg (σ M R O B : Type) where
+  ws : WsSvc σ M R
+  /-- REST handlers by registration number -/
+  rest : Nat → RestH σ O B R
+  alloc : Alloc
+
+/-- a websocket connection: URL path, messages the client will still send (the client sends the
+next one after it got the reply: `Client.Send`), messages answered so far (ghost) and the answers -/
+structure WsThread where
+  path : String
+  todo : List Bytes
+  done : List Bytes := []
+  outs : List WsOut := []
+  closed : Bool := false
+  deriving Repr, DecidableEq
+
+/-- an HTTP connection (kept alive: several requests; single-use: one), each request addressed to
+the handler with the given registration number -/
+structure HttpThread (O B R : Type) where
+  todo : List (Nat × RestReq B)
+  /-- `some o`: the current request has been decoded into `o` (its own object under
+  `Alloc.perRequest`), the handler has not been called yet -/
+  decoded : Option O := none
+  done : List (Nat × RestReq B) := []
+  outs : List (RestOut R) := []
+
+structure Sys (σ O B R : Type) where
+  svc : σ
+  /-- the registration-time argument objects (used under `Alloc.shared` only) -/
+  slots : Nat → O
+  ws : List WsThread
+  http : List (HttpThread O B R)
+
+/-- which goroutine moves -/
+inductive Act where
+  | ws (i : Nat)
+  | http (i : Nat)
+  deriving Repr, DecidableEq
+
+def setSlot {O : Type} (f : Nat → O) (k : Nat) (o : O) : Nat → O := fun j => if j = k then o else f j
+
+/-- one step of websocket connection goroutine `t` -/
+def wsStep {σ M R : Type} (svc : WsSvc σ M R) (s : σ) (t : WsThread) : Option (σ × WsThread) :=
+  if t.closed then none else
+  match t.todo with
+  | [] => none
+  | b :: bs =>
+    let r := processClientRequest svc s t.path b
+    some (r.1, { t with todo := bs, done := t.done ++ [b], outs := t.outs ++ [r.2], closed := !r.2.isReply })
+
+/-- one step of HTTP connection goroutine `t`; returns the service state, the slots and the thread -/
+def httpStep {σ M R O B : Type} (cfg : Cfg σ M R O B) (s : σ) (slots : Nat → O) (t : HttpThread O B R) :
+    Option (σ × (Nat → O) × HttpThread O B R) :=
+  match t.todo with
+  | [] => none
+  | (k, q) :: qs =>
+    let h := cfg.rest k
+    match t.decoded with
+    | none =>
+      if q.method ≠ h.method then
+        some (s, slots, { t with todo := qs, done := t.done ++ [(k, q)], outs := t.outs ++ [.err .method] })
+      else
+        let start := match cfg.alloc with | .perRequest => h.zero | .shared => slots k
+        let d := restDecode h start q
+        let slots' := match cfg.alloc with | .perRequest => slots | .shared => setSlot slots k d.1
+        match d.2 with
+        | some e => some (s, slots', { t with todo := qs, done := t.done ++ [(k, q)], outs := t.outs ++ [.err e] })
+        | none => some (s, slots', { t with decoded := some d.1 })
+    | some o =>
+      -- under `shared` the call reads the shared object as it is *now*
+      let arg := match cfg.alloc with | .perRequest => o | .shared => slots k
+      let c := restCall h s arg
+      some (c.1, slots, { t with todo := qs, decoded := none, done := t.done ++ [(k, q)], outs := t.outs ++ [c.2] })
+
+def step {σ M R O B : Type} (cfg : Cfg σ M R O B) (y : Sys σ O B R) : Act → Option (Sys σ O B R)
+  | .ws i =>
+    match y.ws[i]? with
+    | none => none
+    | some t =>
+      match wsStep cfg.ws y.svc t with
+      | none => none
+      | some (s', t') => some { y with svc := s', ws := y.ws.set i t' }
+  | .http i =>
+    match y.http[i]? with
+    | none => none
+    | some t =>
+      match httpStep cfg y.svc y.slots t with
+      | none => none
+      | some (s', sl', t') => some { y with svc := s', slots := sl', http := y.http.set i t' }
+
+/-- a schedule: a goroutine that cannot move (finished, or no such goroutine) is skipped -/
+def run {σ M R O B : Type} (cfg : Cfg σ M R O B) (y : Sys σ O B R) : List Act → Sys σ O B R
+  | [] => y
+  | a :: as =>
+    match step cfg y a with
+    | some y' => run cfg y' as
+    | none => run cfg y as
+
+/-! ## The client: `Client.Send` (websocket_client.go:176-217)
+
+Several goroutines may call `Send` on one `Client` for the same destination; they share one
+websocket connection.  `newConnIfNotExist` takes the destination's lock, `Send` releases it after
+the reply was read.  The connection is a pair of FIFO pipes; the server goroutine of that
+connection takes a request from one and puts the reply into the other. -/
+
+/-- program counter of one caller of `Send` -/
+inductive Pc where
+  | start       -- before `connLock.Lock()`
+  | locked      -- lock held, nothing written yet
+  | written     -- request written, waiting in `conn.ReadMessage`
+  | finished (reply : Bytes)
+  deriving Repr, DecidableEq
+
+structure Cl where
+  /-- the callers: their request and where they are -/
+  callers : List (Bytes × Pc)
+  lock : Bool := false
+  /-- requests on their way to the server, replies on their way back -/
+  up : List Bytes := []
+  down : List Bytes := []
+  deriving Repr, DecidableEq
+
+inductive ClAct where
+  | caller (i : Nat)   -- caller i performs its next action
+  | server             -- the connection's server goroutine answers the oldest request
+  deriving Repr, DecidableEq
+
+/-- `locking = false` describes a client without the per-destination lock (for the negative result) -/
+def clStep (locking : Bool) (f : Bytes → Bytes) (c : Cl) : ClAct → Option Cl
+  | .server =>
+    match c.up with
+    | [] => none
+    | q :: qs => some { c with up := qs, down := c.down ++ [f q] }
+  | .caller i =>
+    match c.callers[i]? with
+    | none => none
+    | some (q, .start) =>
+      if locking && c.lock then none
+      else some { c with lock := true, callers := c.callers.set i (q, .locked) }
+    | some (q, .locked) => some { c with up := c.up ++ [q], callers := c.callers.set i (q, .written) }
+    | some (q, .written) =>
+      match c.down with
+      | [] => none
+      | r :: rs => some { c with down := rs, lock := false, callers := c.callers.set i (q, .finished r) }
+    | some (_, .finished _) => none
+
+def clRun (locking : Bool) (f : Bytes → Bytes) (c : Cl) : List ClAct → Cl
+  | [] => c
+  | a :: as =>
+    match clStep locking f c a with
+    | some c' => clRun locking f c' as
+    | none => clRun locking f c as
+
+/-! ## The concrete service of the correspondence run (harness/cmd/onetharness/c14svc.go) -/
+
+/-- request fields `A int64`, `S string`, `B []byte` -/
+structure Msg where
+  a : Int := 0
+  s : Bytes := []
+  b : Bytes := []
+  deriving Repr, DecidableEq
+
+structure Reply where
+  a : Int
+  s : Bytes
+  b : Bytes
+  n : Nat
+  deriving Repr, DecidableEq
+
+/-- "fail", "panic", "nil" as bytes -/
+def sFail : Bytes := [102, 97, 105, 108]
+def sPanic : Bytes := [112, 97, 110, 105, 99]
+def sNil : Bytes := [110, 105, 108]
+
+/-- `c14Transform(tag, a, s, b)`; `tag` is "/" followed by the handler's tag, as bytes -/
+def transform (tag : Bytes) (m : Msg) : HandlerResult Reply :=
+  if m.s = sFail then .fail true
+  else if m.s = sPanic then .panics true
+  else if m.s = sNil then .panics true
+  else .ret { a := m.a, s := m.s ++ tag, b := m.b.reverse, n := m.s.length + m.b.length }
+
+/-! ### protobuf decoding of `Msg` as go.dedis.ch/protobuf does it (decode.go) -/
+
+/-- `binary.Uvarint`: value and number of bytes read; `none` = truncated or overflow -/
+def uvarintAux : List Nat → Nat → Nat → Option (Nat × List Nat)
+  | [], _, _ => none
+  | b :: rest, i, acc =>
+    if i ≥ 10 then none
+    else if b < 128 then
+      if i = 9 ∧ b > 1 then none else some (acc + b * 2 ^ (7 * i), rest)
+    else uvarintAux rest (i + 1) (acc + (b % 128) * 2 ^ (7 * i))
+
+def uvarint (buf : List Nat) : Option (Nat × List Nat) := uvarintAux buf 0 0
+
+def leNat : List Nat → Nat
+  | [] => 0
+  | b :: l => b + 256 * leNat l
+
+/-- `int64(v)` for `v < 2^64` -/
+def toInt64 (v : Nat) : Int := if v < 2 ^ 63 then (v : Int) else (v : Int) - 2 ^ 64
+
+/-- `decodeSignedInt` -/
+def decodeSignedInt (wt : Nat) (v : Nat) : Option Int :=
+  if wt = 0 then
+    let sv := Int.fdiv (toInt64 v) 2
+    some (if v % 2 = 1 then -sv - 1 else sv)
+  else if wt = 5 then
+    let w : Nat := v % 2 ^ 32
+    some (if w < 2 ^ 31 then (w : Int) else (w : Int) - 2 ^ 32)
+  else if wt = 1 then some (toInt64 v)
+  else none
+
+/-- `decoder.value` up to `putvalue`: the scalar, the bytes and the rest of the buffer -/
+def wireValue (wt : Nat) (buf : List Nat) : Option (Nat × List Nat × List Nat) :=
+  if wt = 0 then (uvarint buf).map fun (v, rest) => (v, [], rest)
+  else if wt = 5 then (if buf.length < 4 then none else some (leNat (buf.take 4), [], buf.drop 4))
+  else if wt = 1 then (if buf.length < 8 then none else some (leNat (buf.take 8), [], buf.drop 8))
+  else if wt = 2 then
+    match uvarint buf with
+    | none => none
+    | some (v, rest) => if v > rest.length then none else some (v, rest.take v, rest.drop v)
+  else none
+
+/-- `putvalue` for field number `fid` of `Msg` (1 = A int64, 2 = S string, 3 = B []byte) -/
+def putField (m : Msg) (fid wt v : Nat) (vb : List Nat) : Option Msg :=
+  if fid = 1 then (decodeSignedInt wt v).map fun x => { m with a := x }
+  else if fid = 2 then (if wt = 2 then some { m with s := vb } else none)
+  else if fid = 3 then (if wt = 2 then some { m with b := vb } else none)
+  else some m
+
+/-- `decoder.message`: `fieldi` only moves forward, a field number that is not the current one is
+skipped; an error while a struct field is current is wrapped into a long text (`fits = false`) -/
+def decodeMsgAux : Nat → List Nat → Nat → Msg → Except DecErr Msg
+  | 0, _, _, _ => .error ⟨true⟩
+  | fuel + 1, buf, fieldi, m =>
+    if buf.isEmpty then .ok m else
+    match uvarint buf with
+    | none => .error ⟨true⟩                       -- "bad protobuf field key"
+    | some (key, rest) =>
+      let wt := key % 8
+      let fnum := key / 8
+      -- `for fieldi < len(fields) && fields[fieldi].ID < fieldnum { fieldi++ }`, ids are 1,2,3
+      let fieldi' := if fieldi + 1 < fnum then min 3 (fnum - 1) else fieldi
+      let cur := fieldi' < 3
+      let target := if cur ∧ fieldi' + 1 = fnum then fnum else 0
+      match wireValue wt rest with
+      | none => .error ⟨!cur⟩
+      | some (v, vb, rest') =>
+        match putField m target wt v vb with
+        | none => .error ⟨!cur⟩
+        | some m' => decodeMsgAux fuel rest' fieldi' m'
+
+def decodeMsg (buf : Bytes) : Except DecErr Msg := decodeMsgAux (buf.length + 1) buf 0 {}
+
+/-- websocket paths of the service -/
+def wsTag (path : String) : Option Bytes :=
+  if path = "C14Echo" then some [47, 69, 99, 104, 111]        -- "/Echo"
+  else if path = "C14Swap" then some [47, 83, 119, 97, 112]   -- "/Swap"
+  else none
+
+/-- the service state of the concrete service: the number of handler invocations -/
+def concreteWs : WsSvc Nat Msg Reply where
+  registered := fun p => (wsTag p).isSome
+  decode := fun _ buf => decodeMsg buf
+  call := fun n p m => (n + 1, transform ((wsTag p).getD []) m)
+  encode := fun _ => some []      -- the reply bytes are compared in decoded form (see `Drv`)
+
+/-! ### JSON bodies as `encoding/json` sees them for a struct with fields A, S, B -/
+
+inductive Fld where
+  | A | S | B
+  deriving Repr, DecidableEq
+
+inductive Item where
+  | setA (v : Int) | setS (v : Bytes) | setB (v : Bytes)
+  | null (f : Fld)       -- `"F": null` leaves the field alone
+  | bad (f : Fld)        -- a value of the wrong JSON type: error, the other fields are still stored
+  | unknown              -- a key that matches no field: ignored
+  deriving Repr, DecidableEq
+
+inductive Body where
+  | absent               -- no body: "unexpected end of JSON input"
+  | syntaxErr            -- rejected by the syntax check before anything is stored
+  | obj (items : List Item)
+  deriving Repr, DecidableEq
+
+def applyItem (r : Msg × Bool) : Item → Msg × Bool
+  | .setA v => ({ r.1 with a := v }, r.2)
+  | .setS v => ({ r.1 with s := v }, r.2)
+  | .setB v => ({ r.1 with b := v }, r.2)
+  | .null _ => r
+  | .bad _ => (r.1, false)
+  | .unknown => r
+
+/-- `json.Unmarshal(body, obj)`: right-biased merge into the existing object -/
+def unmarshal (o : Msg) : Body → Msg × Bool
+  | .absent => (o, false)
+  | .syntaxErr => (o, false)
+  | .obj items => items.foldl applyItem (o, true)
+
+/-- the five REST handlers of the service, in registration order:
+0 C14Post (POST), 1 C14Put (PUT), 2 C14Int (GET, int), 3 C14Bytes (GET, slice), 4 C14Empty (GET) -/
+def restTag : Nat → Bytes
+  | 0 => [47, 80, 111, 115, 116]               -- "/Post"
+  | 1 => [47, 80, 117, 116]                    -- "/Put"
+  | 2 => [47, 73, 110, 116]                    -- "/Int"
+  | 3 => [47, 66, 121, 116, 101, 115]          -- "/Bytes"
+  | _ => [47, 69, 109, 112, 116, 121]          -- "/Empty"
+
+def concreteRest (k : Nat) : RestH Nat Msg Body Reply where
+  method := match k with | 0 => .POST | 1 => .PUT | _ => .GET
+  kind := match k with | 2 => .int | 3 => .slice | _ => .empty
+  zero := {}
+  unmarshal := unmarshal
+  setInt := fun o n => match k with | 2 => { o with a := n } | _ => o
+  setBytes := fun o b => match k with | 3 => { o with b := b } | _ => o
+  call := fun n o =>
+    (n + 1, match k with
+      | 2 => transform (restTag k) { a := o.a }
+      | 3 => transform (restTag k) { b := o.b }
+      | 0 => transform (restTag k) o
+      | 1 => transform (restTag k) o
+      | _ => transform (restTag k) {})
+
+def concreteCfg (al : Alloc) : Cfg Nat Msg Reply Msg Body where
+  ws := concreteWs
+  rest := concreteRest
+  alloc := al
+
+/-! ## Line-protocol driver -/
 namespace Drv
-/-- line-protocol driver state for C14 -/
-abbrev State := Unit
-def init : State := ()
-/-- one line in (tokens after the property prefix), new state and one line out -/
-def step (s : State) (_toks : List String) : State × String := (s, "bad-op")
+
+/-- the number of handler invocations so far (the only state: no request leaves anything else) -/
+structure State where
+  calls : Nat := 0
+  /-- registration-time REST objects; never written under `Alloc.perRequest` -/
+  slots : Nat → Msg := fun _ => {}
+  /-- raw websocket connections (clients `r…`, which pipeline their messages on one connection
+  and never redial) that the server has closed: the read loop `wsConn` reads nothing more -/
+  closed : List String := []
+
+def init : State := {}
+
+def showInt (i : Int) : String := toString i
+
+def showReply (r : Reply) : String :=
+  s!"A={showInt r.a},S={Util.hex r.s},B={Util.hex r.b},N={r.n}"
+
+def whyName : Why → String
+  | .unregistered => "unregistered" | .decode => "decode" | .handler => "handler"
+  | .panic => "panic" | .encode => "encode"
+
+def errName : RestErr → String
+  | .method => "method" | .ctype => "ctype" | .decode => "decode" | .handler => "handler"
+  | .panic => "panic" | .path => "path" | .nan => "nan" | .hex => "hex"
+
+def parseInt (s : String) : Option Int := s.toInt?
+
+def parseFld (s : String) : Option Fld :=
+  if s = "A" ∨ s = "a" then some .A else if s = "S" ∨ s = "s" then some .S
+  else if s = "B" ∨ s = "b" then some .B else none
+
+def parseItem (it : String) : Option Item :=
+  if it.endsWith "!" then (parseFld (String.ofList (it.toList.take (it.length - 1)))).map .bad
+  else match it.splitOn "=" with
+    | [k, v] =>
+      if k = "X" then (parseInt v).map fun _ => .unknown
+      else match parseFld k with
+        | none => none
+        | some f =>
+          if v = "null" then some (.null f)
+          else match f with
+            | .A => (parseInt v).map .setA
+            | .S => (Util.unhex v).map .setS
+            | .B => (Util.unhex v).map .setB
+    | _ => none
+
+def parseBody (s : String) : Option Body :=
+  if s = "-" then some .absent
+  else if s = "syntax" then some .syntaxErr
+  else if s = "{}" then some (.obj [])
+  else ((s.splitOn ";").mapM parseItem).map .obj
+
+def parseMethod (s : String) : Method :=
+  if s = "GET" then .GET else if s = "POST" then .POST else if s = "PUT" then .PUT else .other
+
+def resourceId (s : String) : Option Nat :=
+  if s = "C14Post" then some 0 else if s = "C14Put" then some 1 else if s = "C14Int" then some 2
+  else if s = "C14Bytes" then some 3 else if s = "C14Empty" then some 4 else none
+
+/-- the websocket reply of the concrete service is compared in decoded form: recompute the reply
+value that `encode` stands for -/
+def wsShow (st : State) (path : String) (buf : Bytes) : State × String :=
+  let r := processClientRequest concreteWs st.calls path buf
+  let txt := match r.2 with
+    | .reply _ =>
+      match decodeMsg buf with
+      | .ok m => (match transform ((wsTag path).getD []) m with
+        | .ret rep => "ok " ++ showReply rep
+        | _ => "model-inconsistent")
+      | .error _ => "model-inconsistent"
+    | .close w true => "close 1002 " ++ whyName w
+    | .close _ false => "close 1006 other"
+  ({ st with calls := r.1 }, txt)
+
+/-- routing by `http.ServeMux` (net/http, observed not modelled): patterns of int/slice GET
+handlers end in `/` (a request without the last element is redirected), the others are exact;
+everything else falls to the catch-all handler, which refuses non-websocket requests -/
+def restShow (st : State) (method ctype res tail body : String) : Option (State × String) :=
+  match parseBody body, (if ctype = "json" then some true else if ctype = "text" ∨ ctype = "none" then some false else none) with
+  | some b, some ct =>
+    match resourceId res with
+    | none => some (st, "400 noroute")
+    | some k =>
+      let h := concreteRest k
+      let slash := h.method = .GET ∧ h.kind ≠ .empty
+      if slash ∧ tail = "-" then some (st, "301 other")
+      else if ¬ slash ∧ tail ≠ "-" then some (st, "400 noroute")
+      else
+        let req : RestReq Body := { method := parseMethod method, jsonCT := ct, tail := if tail = "-" then "" else tail, body := b }
+        let r := restHandle h .perRequest (st.slots k) st.calls req
+        let txt := match r.2.2 with
+          | .ok rep => "200 " ++ showReply rep
+          | .err e => s!"{e.status} {errName e}"
+        some ({ st with calls := r.2.1, slots := setSlot st.slots k r.1 }, txt)
+  | _, _ => none
+
+/-- see harness/cmd/onetharness/c14.go for the operations; thread and client names do not matter
+to the model: that is the property -/
+def step (s : State) (toks : List String) : State × String :=
+  match toks with
+  | ["ws", _thr, client, path, buf] =>
+    match Util.unhex buf with
+    | some b =>
+      if client.startsWith "r" then
+        -- one connection for all messages of this client: `wsConn` message by message
+        if s.closed.contains client then (s, "noreply")
+        else
+          -- the close reason is not observed on pipelined connections (the frame races with a reset)
+          let r := wsShow s path b
+          if r.2.startsWith "close" then ({ r.1 with closed := client :: r.1.closed }, "close") else r
+      else wsShow s path b   -- `Client.Send` redials after an error: always a live connection
+    | none => (s, "bad-op")
+  | ["rest", _thr, _client, method, ctype, res, tail, body] =>
+    match restShow s method ctype res tail body with
+    | some r => r
+    | none => (s, "bad-op")
+  | ["barrier"] => (s, "ok")
+  | ["calls"] => (s, toString s.calls)
+  | _ => (s, "bad-op")
+
 end Drv
 
 end C14
